@@ -238,12 +238,14 @@ def r14_4_5(ctx) -> None:
     okm = len(loops) == 1
     if okm:
         L = loops[0]
-        apps = [cfgm.node_of(n) for n in fn_nodes(imp) if isinstance(n, ast.Call) and isinstance(n.func, ast.Attribute) and n.func.attr == "append" and norm(n.func.value) == "keys"
+        appc = [n for n in fn_nodes(imp) if isinstance(n, ast.Call) and isinstance(n.func, ast.Attribute) and n.func.attr == "append" and isinstance(n.func.value, ast.Name)
                 and n.args and "import_key(" in norm(n.args[0]) and norm(L.ast.target) in norm(n.args[0])]
+        acc = {n.func.value.id for n in appc}
+        apps = [cfgm.node_of(n) for n in appc]
         apps = [a for a in apps if a is not None]
-        okm = bool(apps) and all(L not in cfgm.reachable(s0, apps) or s0 in apps for s0 in succ_by_label(cfgm, L, "iter"))
+        okm = bool(apps) and len(acc) == 1 and all(L not in cfgm.reachable(s0, apps) or s0 in apps for s0 in succ_by_label(cfgm, L, "iter"))
         rets = cfgm.returns()
-        okm = okm and all(norm(r.ast.value) in ("cls(keys)",) for r in rets)
+        okm = okm and all(norm(r.ast.value) == f"{imp.self_name or 'cls'}({next(iter(acc))})" for r in rets)
     ctx.check(okm, "R14.5", imp, imp.node, f"{imp.short}", "import_key_set does not import and keep every key of the serialization", "for data in value['keys']: keys.append(import_key(data)); return cls(keys)",
               construct="import_key_set")
     ad = ks.methods["as_dict"]
